@@ -214,6 +214,16 @@ func cost(graphSpec, topS, bottomS string) string {
 		return "select-error " + err.Error()
 	}
 	selCalls := count
+	// the same selection once more on the graph that now CARRIES the selection: the traversal must not read the
+	// selected flags (the model has no such input), so the second round costs what the first did (seed C19q: a
+	// visited mark set only for not-yet-selected nodes re-enters every already selected ancestor along every path)
+	count = 0
+	if _, _, err := sel.SelectTargetsForBuild(g); err != nil {
+		return "select-error(second round) " + err.Error()
+	}
+	if count > selCalls {
+		selCalls = count
+	}
 	nsel := 0
 	for _, n := range nodes {
 		if n.GetIsSelected() {
